@@ -29,7 +29,7 @@ PROP = "C17"
 LEVEL = "exploration"
 RULE = (
     "(A) Hypothesis histories of 1-5 steps over {content write (4 contents incl. non-canonical and unparseable), changes write, "
-    "normalize, corrections_only of each, external modification (2 texts, empty, non-UTF-8, delete)} x base_hash in {none, current, "
+    "normalize, corrections_only of each, CLI write --stdin / --changes with --base-hash, external modification (2 texts, empty, non-UTF-8, delete)} x base_hash in {none, current, "
     "stale, hash of new content} x {parent exists, missing}; register model + sandbox snapshot per step. (B) exhaustive: for content/"
     "changes/normalize calls holding the current hash, an external modification right before each of the call's ~25 file-operation "
     "boundaries. (C) exhaustive: all C(10,5)=252 interleavings of two writers with the same base_hash at 5 gated logical steps, for "
@@ -92,7 +92,7 @@ def run_history(case, root):
         before = fsx.snapshot(root)
         bh = None
         hb = step.get("bh", "none")
-        new_c = canon_bytes(TEXTS[step["content"]]) if op in ("write", "dry_write") else None
+        new_c = canon_bytes(TEXTS[step["content"]]) if op in ("write", "dry_write", "cli_write") else None
         if hb == "current":
             bh = sha(model_file) if model_file is not None else STALE
         elif hb == "stale":
@@ -109,7 +109,18 @@ def run_history(case, root):
         if op.startswith("dry"):
             kw["corrections_only"] = True
         try:
-            r = tools.write(**kw)
+            if op.startswith("cli"):
+                args = ["write", path] + (["--stdin"] if op == "cli_write" else ["--changes", json.dumps({"K": "changed" + str(k), "NEW" + str(k): [k]})])
+                if bh:
+                    args += ["--base-hash", bh]
+                code, out_, err_, exc = tools.cli(args, input=TEXTS[step["content"]] if op == "cli_write" else None)
+                if exc is not None:
+                    raise exc
+                hm = [ln.split(": ", 1)[1].strip() for ln in out_.splitlines() if ln.startswith("canonical_hash: ")]
+                r = {"status": "success" if code == 0 else "error", "canonical_hash": hm[0] if hm else None,
+                     "errors": [{"code": "E_HASH" if "ash mismatch" in (out_ + err_) else "E_CLI"}]}
+            else:
+                r = tools.write(**kw)
         except Exception as e:
             fails.append(("C17:unlisted:tool-raised", f"step {k} {step}: octave_write raised {e!r}"))
             break
@@ -130,7 +141,8 @@ def run_history(case, root):
                 if not created_dirs_only:
                     break
             readable = model_file is not None and _is_utf8(model_file)
-            if bh is not None and readable and not matches and "E_HASH" not in codes and (op != "write" or new_c is not None):
+            if bh is not None and readable and not matches and "E_HASH" not in codes and (op not in ("write", "cli_write") or new_c is not None) \
+                    and not (op == "cli_changes" and top_keys(model_file) is None):
                 fails.append(("C17:unlisted:mismatch-not-reported-as-E_HASH", f"step {k} {step}: base_hash does not match the file but the error is {codes}, not E_HASH"))
             continue
         # success
@@ -142,10 +154,10 @@ def run_history(case, root):
         if cur is None or (r.get("canonical_hash") and sha(cur) != r["canonical_hash"]):
             fails.append(("C17:unlisted:success-but-file-differs-from-canonical-hash", f"step {k} {step}: sha256(file) != canonical_hash"))
             break
-        if op == "write" and new_c is not None and cur != new_c:
+        if op in ("write", "cli_write") and new_c is not None and cur != new_c:
             fails.append(("C17:unlisted:success-but-wrong-content", f"step {k} {step}: file is not the canonical text of the written content"))
             break
-        if op == "changes" and model_file is not None and _is_utf8(model_file):
+        if op in ("changes", "cli_changes") and model_file is not None and _is_utf8(model_file):
             # key-level frame model: the new file holds the old file's top-level keys plus exactly the keys THIS call named —
             # nothing a dry run or a failed call asked for earlier
             want_keys = top_keys(model_file)
@@ -198,6 +210,8 @@ def history_strategy():
         hs.builds(lambda b: {"op": "dry_changes", "bh": b}, bh),
         hs.builds(lambda w: {"op": "ext", "what": w}, hs.sampled_from(sorted(EXT))),
         hs.builds(lambda w: {"op": "ext", "what": w}, hs.sampled_from(sorted(EXT))),
+        hs.builds(lambda c, b: {"op": "cli_write", "content": c, "bh": b}, hs.sampled_from(["A", "B", "X"]), bh),
+        hs.builds(lambda b: {"op": "cli_changes", "bh": b}, bh),
     )
     return hs.builds(lambda s, pm: {"kind": "history", "steps": s, "parent_missing": pm}, hs.lists(step, min_size=1, max_size=5), hs.booleans())
 
